@@ -27,7 +27,7 @@ ASSUME = ["IEEE arithmetic: two different expressions of one real edge are not a
 
 
 def run(prog, rep):
-    rep.explanation = EXPL
+    rep.explanation = EXPL + ' C10.ppi:masks-by-position: a chunk mask marks positions, it does not see the chunk only through data[chunk].'
     rep.assumptions = ASSUME
     rep.part(align, prog, rep, "C10.align")
     rep.part(width_slicer, prog, rep)
